@@ -269,6 +269,39 @@ func zzRemoteCommit(r *simcore.Run, s *chansim.Sim, x int, tx *wire.MsgTx, c *ch
 	default:
 		r.Fail("remote-close-not-recognised", "%s: no RemoteUnilateralClosure event was dispatched", who)
 	}
+	// Which of the three commitments confirmed is what the arbitrator keys
+	// every per-HTLC disposition on (C12): the chain watcher must name the
+	// right one and hand over exactly that commitment's HTLCs under that key.
+	wantKey := RemoteHtlcSet
+	if which == "pending" {
+		wantKey = RemotePendingHtlcSet
+	}
+	if info.CommitSet.ConfCommitKey.IsNone() {
+		r.Fail("conf-commit-key", "%s: close event names no confirmed commitment", who)
+	}
+	gotKey := info.CommitSet.ConfCommitKey.UnwrapOr(LocalHtlcSet)
+	if gotKey != wantKey {
+		r.Fail("conf-commit-key", "%s: chain watcher says %v confirmed, it was %v", who, gotKey, wantKey)
+	}
+	wantIdx := map[string]bool{}
+	for _, h := range c.Htlcs {
+		wantIdx[fmt.Sprintf("%v/%d", h.Incoming, h.HtlcIndex)] = true
+	}
+	gotIdx := map[string]bool{}
+	for _, h := range info.CommitSet.HtlcSets[gotKey] {
+		gotIdx[fmt.Sprintf("%v/%d", h.Incoming, h.HtlcIndex)] = true
+	}
+	for k := range wantIdx {
+		if !gotIdx[k] {
+			r.Fail("conf-commit-set", "%s: HTLC %s of the confirmed commitment is missing from the commit set handed to the arbitrator under %v", who, k, gotKey)
+		}
+	}
+	for k := range gotIdx {
+		if !wantIdx[k] {
+			r.Fail("conf-commit-set", "%s: commit set under %v holds HTLC %s which is not on the confirmed commitment", who, gotKey, k)
+		}
+	}
+	r.Count("conf_commit_key_checks")
 	zzCheckResolutions(r, s, fp, who, tx, c, info.CommitResolution, info.HtlcResolutions, false, pre)
 }
 
